@@ -283,7 +283,7 @@ func GenC10(t *rapid.T) *C10Case {
 		c.Derived = drawInt(t, 1, 3, "every")
 	}
 	if oneIn(t, 3, "rereads") {
-		ops := []string{"add", "insert", "replace", "delete", "pop", "clear", "reverse", "set", "unset", "oclear", "noop"}
+		ops := []string{"add", "insert", "replace", "delete", "pop", "clear", "reverse", "set", "unset", "oclear", "noop", "rekey", "clearrefill"}
 		for i, n := 0, drawInt(t, 1, 3, "nmuts"); i < n; i++ {
 			c.Muts = append(c.Muts, CloneMut{Node: genRaw(t), Op: ops[drawIdx(t, len(ops), "mop")], A: genRaw(t),
 				Key: tfKeys[drawIdx(t, len(tfKeys), "mkey")], V: genValSpec(t, 2)})
